@@ -10,7 +10,7 @@ import re
 from . import common as C
 from .simengine import lockstep, monitors, sweep, world as W
 
-LOCKSTEP_FAMILIES = {"respawn", "saturate", "mixed", "notimeout", "contain", "crash", "kill", "init", "leak", "break", "graceful", "timeouts"}
+LOCKSTEP_FAMILIES = {"concurrent", "respawn", "saturate", "mixed", "notimeout", "contain", "crash", "kill", "init", "leak", "break", "graceful", "timeouts"}
 
 
 def _sig(rec):
@@ -32,6 +32,7 @@ def run_job(job):
         pt = 0.15 if (scen.get("timeout") and job.get("tolerate_divergence")) else 0.0
         chooser = W.replay_chooser(job["schedule"], then=W.random_chooser(job["seed"], p_timeout=pt, p_crash=0.0))
     elif job.get("starve_bodies"):
+        LONG_FROM[0] = scen.get("long_from", 0)
         chooser = starving_chooser(job["seed"])
     elif job.get("pct"):
         chooser = W.pct_chooser(job["seed"], depth=1 + job["seed"] % 4, p_timeout=scen["sched"].get("p_timeout", 0.0),
@@ -79,6 +80,9 @@ def run_job(job):
     return out
 
 
+LONG_FROM = [0]
+
+
 def starving_chooser(seed):
     """never lets a task body finish: what happens must not depend on the bodies"""
     base = W.random_chooser(seed, p_timeout=0.0, p_crash=0.0)
@@ -87,7 +91,8 @@ def starving_chooser(seed):
         ch = base(eng)
 
         def choose(e, choices):
-            cs = [c for c in choices if not (e.actors[c[0]].pending is not None and e.actors[c[0]].pending.kind == "taskend")]
+            cs = [c for c in choices if not (e.actors[c[0]].pending is not None and e.actors[c[0]].pending.kind == "taskend"
+                                             and e.actors[c[0]].pending.arg >= LONG_FROM[0])]
             if not any(v != "crash" for _, v in cs):
                 return None
             return ch(e, cs)
@@ -127,7 +132,8 @@ class E1Part:
             for i in range(k):
                 jobs.append({"family": fam, "seed": base + i, "props": self.props,
                              "lockstep": self.lockstep_on and fam in LOCKSTEP_FAMILIES,
-                             "starve_bodies": bool(self.starve and i % self.starve == 0 and fam in ("kill", "saturate")),
+                             "starve_bodies": bool(self.starve and i % self.starve == 0
+                                                   and fam in ("kill", "saturate", "saturateleak", "reusesaturate")),
                              "pct": i % 5 in (1, 3) and fam not in ("saturate",),
                              "sample": i == 0})
         return jobs
